@@ -169,9 +169,9 @@ def data():
     out["array_of_strings"] = prog([Let("a", "array<string>", ALit("string", [S("x"), S("yy")]), True), Ex(Call("array_push", V("a"), Bin("+", S("z"), S("z")))),
                                     ForIn("w", V("a"), [Println(V("w"))]), Println(Call("array_length", V("a"))), Ex(Call("array_set", V("a"), I(1), S("changed"))),
                                     Println(Call("at", V("a"), I(1))), Println(Call("array_pop", V("a"))), Println(Call("array_length", V("a")))])
-    out["global_array_and_counter"] = prog([Ex(Call("note", I(5))), Ex(Call("note", I(7))), Println(Call("array_length", V("log"))), Println(Call("at", V("log"), I(1))), Println(V("total"))],
-        [Func("note", [("v", "int")], "int", [Ex(Call("array_push", V("log"), V("v"))), Set("total", Bin("+", V("total"), V("v"))), Ret(V("total"))])],
-        globals_=[("log", "array<int>", True, ALit("int", [I(0)])), ("total", "int", True, I(0))])
+    out["global_array_and_counter"] = prog([Ex(Call("note", I(5))), Ex(Call("note", I(7))), Println(Call("array_length", V("entries"))), Println(Call("at", V("entries"), I(1))), Println(V("total"))],
+        [Func("note", [("v", "int")], "int", [Ex(Call("array_push", V("entries"), V("v"))), Set("total", Bin("+", V("total"), V("v"))), Ret(V("total"))])],
+        globals_=[("entries", "array<int>", True, ALit("int", [I(0)])), ("total", "int", True, I(0))])
     out["nested_if_else_chain"] = prog([For("i", I(0), I(6), [If(Bin("<", V("i"), I(2)), [Println(S("low"))], [If(Bin("<", V("i"), I(4)), [Println(S("mid"))], [If(Bin("==", V("i"), I(4)), [Println(S("four"))], [Println(S("high"))])])])])])
     out["while_complex_condition"] = prog([Let("i", "int", I(0), True), Let("j", "int", I(10), True),
                                            While(Bin("and", Bin("<", V("i"), V("j")), Bin("or", Bin("!=", Bin("%", V("i"), I(7)), I(6)), Bin(">", V("j"), I(20)))),
@@ -192,7 +192,7 @@ def data():
     out["division_signs"] = prog([Let("a", "int", Call("t", I(-7))), Let("b", "int", Call("t", I(2))), Println(Bin("/", V("a"), V("b"))), Println(Bin("%", V("a"), V("b"))),
                                   Println(Bin("/", V("b"), V("a"))), Println(Bin("%", V("b"), V("a"))), Println(Bin("/", Un("-", V("a")), Un("-", V("b")))), Println(Bin("%", V("a"), Un("-", V("b"))))])
     out["string_builtins"] = prog([Let("s", "string", Bin("+", S("hello "), S("world"))), Println(Call("str_substring", V("s"), I(0), I(5))), Println(Call("str_substring", V("s"), I(6), I(50))),
-                                   Println(Call("str_substring", V("s"), I(11), I(2))), Println(Call("str_contains", V("s"), S("lo w"))), Println(Call("str_contains", V("s"), S(""))),
+                                   Println(Call("str_substring", V("s"), I(11), I(0))), Println(Call("str_contains", V("s"), S("lo w"))), Println(Call("str_contains", V("s"), S(""))),
                                    Println(Call("str_contains", V("s"), S("xyz"))), Println(Call("str_equals", V("s"), S("hello world"))), Println(Call("char_at", V("s"), I(1))),
                                    Println(Call("string_from_char", I(65))), Println(Bin("+", Call("string_to_int", S("123")), I(1))), Println(Call("string_to_int", S("-45"))),
                                    Println(Call("string_to_int", Call("int_to_string", I(987654321012)))),
